@@ -43,7 +43,8 @@ PROBES = ["resumed_id", "resumed_ticket10", "resumed_ticket13",
           "fallback_full", "expired_by_server_clock", "clock_skew",
           "rotated_key", "evicted", "tampered", "foreign", "fatal_close",
           "crash", "changed_hello", "client_auth_resumed", "api_refused",
-          "external_psk", "external_psk_over_ticket"]
+          "external_psk", "external_psk_over_ticket", "policy_changed",
+          "policy_excludes_session"]
 COMPONENTS_REAL = ["tlslite client/server resumption paths, SessionCache, "
                    "ticket encryption/decryption, Session/Ticket objects"]
 COMPONENTS_STUB = ["socket", "os.urandom", "time.time (per-node SimClock)"]
@@ -75,6 +76,7 @@ class Srv(object):
         self.prewrap = ch.draw(2 * self.max_entries + 1, name + ".prewrap")
         # external TLS 1.3 PSK configured next to the ticket keys
         self.psk = [None, "sha256", "sha384", None][ch.draw(4, name + ".psk")]
+        self.ciphers = None    # server-side cipherNames policy (None=default)
 
     def settings(self, ver):
         d = {"minVersion": list(ver), "maxVersion": list(ver),
@@ -82,6 +84,8 @@ class Srv(object):
              "ticket_count": self.ticket_count}
         if self.tickets:
             d["ticketKeys"] = list(self.keys)
+        if self.ciphers:
+            d["cipherNames"] = list(self.ciphers)
         if self.psk and tuple(ver) == (3, 4):
             d["pskConfigs"] = [list(scen.PSK_HEX) + [self.psk]]
         return d
@@ -292,6 +296,10 @@ def run(job, streams=None):
                                        "aes256"]
                 if ch.draw(5, "h.keepsrv") != 1:
                     sname = offer["server"]
+            if mods.get("ciphers") and srv[sname].ciphers and not (
+                    set(mods["ciphers"]) & set(srv[sname].ciphers)):
+                # client and server policies would share no cipher at all
+                del mods["ciphers"]
             if tuple(ver) == (3, 4) and srv[sname].psk and \
                     ch.draw(3, "h.psk") == 1:
                 mods["psk"] = srv[sname].psk
@@ -419,6 +427,15 @@ def run(job, streams=None):
                 else:
                     S.keys[:] = [new]
                 probes["rotated_key"] = 1
+        elif k == 7 and ch.draw(3, "h.pol") == 1:
+            # the operator tightens / changes the server's cipher policy
+            # while cache and ticket keys persist
+            S = srv["AB"[ch.draw(2, "h.polsrv")]]
+            S.ciphers = [["aes128gcm", "aes128"],
+                         ["aes256gcm", "chacha20-poly1305", "aes256"],
+                         None][ch.draw(3, "h.polset")]
+            hist.append(["policy", S.name, S.ciphers])
+            probes["policy_changed"] = 1
         elif k == 7:
             S = srv["AB"[ch.draw(2, "h.evsrv")]]
             n = 1 + ch.draw(S.max_entries + 1, "h.evn")
@@ -548,6 +565,11 @@ def judge_attempt(info, offer, S, mods, sname, v, probes, srv):
                                "untouched)")
             else:
                 reasons.append("invalidated on the server by a fatal error")
+    if ver < (3, 4) and S.ciphers:
+        sa = scen.all_suites()
+        if offer["suite"] in sa and sa[offer["suite"]].cipher not in S.ciphers:
+            reasons.append("suite no longer allowed by the server's policy")
+            probes["policy_excludes_session"] = 1
     if mods.get("sni") and mods["sni"] != offer["sni"]:
         soft.append("sni changed")
     if mods.get("ems_off") and offer["ems"]:
@@ -570,8 +592,13 @@ def judge_attempt(info, offer, S, mods, sname, v, probes, srv):
             vc, vs = info["view_c"], info["view_s"]
             for side, vw in (("client", vc), ("server", vs)):
                 if vw["suite"] != offer["suite"]:
-                    v("resumed_params", "suite|%s|%s" % (
-                        side, "tls13" if ver == (3, 4) else "tls<=1.2"),
+                    sa = scen.all_suites()
+                    same = sa[vw["suite"]].prf == sa[offer["suite"]].prf \
+                        if vw["suite"] in sa and offer["suite"] in sa \
+                        else False
+                    v("resumed_params", "suite|%s|%s|%s" % (
+                        side, "tls13" if ver == (3, 4) else "tls<=1.2",
+                        "same_hash" if same else "other_hash"),
                       "resumed with suite %#x, original %#x" %
                       (vw["suite"], offer["suite"]))
                 if ver < (3, 4) and vw["ems"] != offer["ems"]:
